@@ -216,10 +216,15 @@ def repo_fingerprint():
         return 'unknown', 'unknown'
 
 
+LAST_CHECK = None
+
+
 class Check:
     """Accumulates what a check run covered and what it found."""
 
     def __init__(self, pid, tier, seed):
+        global LAST_CHECK
+        LAST_CHECK = self
         self.pid = pid
         self.tier = tier
         self.seed = seed
@@ -309,6 +314,15 @@ class Check:
             self.pid, self.tier, self.states, self.transitions, self.traces, time.time() - self.t0,
             (' known_findings=%d' % len(self.known_hits)) if self.known_hits else ''))
         return 0
+
+
+def pick_canary(traces, mutate):
+    """first trace of `traces` to which `mutate` applies (mutate returns the corrupted copy or None)"""
+    for tr in traces:
+        m = mutate([tuple(x) for x in tr])
+        if m is not None:
+            return m
+    return None
 
 
 def diff_states(model, impl):
